@@ -17,6 +17,7 @@ EXPLANATION = (
     "content_length/accept are overwritten on every accepted occurrence, expect/chunked only ever set "
     "to true; Content-Length is parsed as u32; the block parser applies the line parser to the pieces of "
     "split(\"\\r\\n\") up to the first empty one and tolerates exactly {Ok, UnsupportedValue}. "
+    "The connection, the other caller of the line parser, tolerates the same set. "
     "Decides these clauses for all header bytes; does not enumerate inputs."
 )
 TRUSTED = ["str::{splitn,split,trim,parse::<u32>,contains,eq}, String::make_ascii_lowercase, HashMap::insert (last wins)"]
